@@ -20,7 +20,8 @@ ASSUMPTIONS = [
 ]
 REQUIRED = {"eval.post": 1000, "checked_results": 300}
 MIN_NONTRIVIAL = {"quick": 12, "thorough": 20}
-PLAN = [("init", 700, 9000), ("loop", 700, 9000), ("degenerate", 300, 3000), ("cross", 300, 6000)]
+PLAN = [("init", 700, 9000), ("loop", 700, 9000), ("degenerate", 300, 3000),
+        ("placed", 300, 3000), ("cross", 300, 6000)]
 NEED_STATUS = (0, 1, 2, 3, 4, 5, 6, -1)
 
 
@@ -152,8 +153,14 @@ def make_spec(case):
             o["maxfev"] = 600
         elif trig == "target":
             o["target"] = float(rng.uniform(-1, 5))
-            if rng.random() < 0.4:
+            u = rng.random()
+            if u < 0.3:
                 o["feasibility_tol"] = 0.0
+            elif u < 0.7:
+                # a small filter and a loose tolerance: the point that meets
+                # the request may be the least feasible retained point
+                o["filter_size"] = int(rng.integers(1, 4))
+                o["feasibility_tol"] = float(rng.choice([1e-2, 1e-1, 0.5]))
         elif trig == "feas":
             spec["obj"] = {"kind": "none"}
             if con == "none":
@@ -174,6 +181,21 @@ def make_spec(case):
 
 
 def run_case(case):
+    if case["fam"] == "placed":
+        # requests placed by replay on a chosen evaluation (the C09 driver:
+        # (target, feasibility_tol) = (f_k, v_k), small filters, callback
+        # stops, trial points followed by a correction), judged by the status
+        # oracle of this check
+        from checks import c09
+        sub = {"id": case["id"], "fam": ["target", "multi", "soc"][
+            case["idx"] % 3], "idx": case["idx"], "seed": case["seed"]}
+        r = c09.run_case(sub, judge="c07")
+        r["tags"] = ["fam:placed"] + [t for t in r["tags"]
+                                      if not t.startswith("fam:")]
+        if r.get("nt"):
+            r["nt"] = "placed|" + str(r["nt"])
+        r["counts"]["checked_results"] = 1
+        return r
     if case["fam"] == "cross":
         spec, _src = e2e.cross_spec(ID, case)
         spec.setdefault("trigger", "cross/" + _src)
